@@ -101,7 +101,16 @@ def run(chk):
     bad = cc.crashed(lines, real)
     if bad:
         raise core.HarnessFault(f"cli worker failed on {bad[0][0]}: {bad[0][1]}")
-    dis2, _, _ = chk.differential("cli-exits", ["cliexits"])          # secondary tie: handler -> exit code, read by ast
+    # secondary tie: handler -> exit code, read by ast; an entry the reader cannot determine (`?`, e.g. after a refactoring of
+    # the handlers) is not comparable and counted — the exit codes are then tied by the subprocess runs of the `cli` stream alone
+    exits_model = core.run_driver(["cliexits"])[0]
+    mvals = dict(kv.split("=") for kv in exits_model.split())
+
+    def canon_exits(line):
+        vals = dict(kv.split("=") for kv in line.split() if "=" in kv)
+        return " ".join(f"{k}={mvals[k] if vals.get(k, '?') == '?' else vals[k]}" for k in mvals)
+    dis2, _, exits_real = chk.differential("cli-exits", ["cliexits"], canon=canon_exits)
+    chk.cov["cli_exits_unreadable"] = exits_real[0].count("=?")
     cc.attribute(chk, dis, KEYS, ("F17", "F26"))
     found = cc.collect_violations(lines, real, KINDS)
     pair_bad, npairs = channel_pairs(lines, real)
